@@ -560,9 +560,10 @@ def inline_new_temporaries(fn, pinned, extra_funcs=(), extra_methods=()):
         return sum(1 for n in ast.walk(fn2) if isinstance(n, ast.Name) and n.id == t)
 
     def is_temp_assign(s):
+        # the value may be impure (an RNG draw, a fit): then the consumer must not evaluate anything impure itself
         return (isinstance(s, ast.Assign) and len(s.targets) == 1 and isinstance(s.targets[0], ast.Name)
-                and s.targets[0].id in new and is_pure_expr(s.value, extra_funcs, extra_methods)
-                and not _loads(s.value, {s.targets[0].id}))
+                and s.targets[0].id in new and not _loads(s.value, {s.targets[0].id})
+                and not any(isinstance(n, (ast.Await, ast.Yield, ast.YieldFrom, ast.NamedExpr)) for n in ast.walk(s.value)))
 
     def header_nodes(consumer):
         hdr = _header_fields(consumer)
@@ -589,6 +590,10 @@ def inline_new_temporaries(fn, pinned, extra_funcs=(), extra_methods=()):
                      and isinstance(consumer.targets[0], ast.Name) and consumer.targets[0].id == t and stores == 1)
         if not rebinding and (stores or occurrences(t) != 1 + loads):
             return None
+        if not is_pure_expr(s.value, extra_funcs, extra_methods):
+            # an impure value may only move into a consumer that uses it once and evaluates nothing impure besides it
+            if loads != 1 or not all(is_pure_expr(node, extra_funcs, extra_methods) for node in nodes):
+                return None
         sub = _Subst({t: s.value})
         if hdr is None:
             if rebinding:
@@ -651,6 +656,19 @@ def canon_tree(tree, pinned_by_function, extra_funcs=(), extra_methods=()):
                 walk(n.body, prefix + n.name + ".")
     walk(tree.body, "")
     return tree
+
+
+def fold_early_exits(stmts):
+    """`if c: ...; return x` followed by more statements  ->  `if c: ...; return x` `else:` those statements (recursively),
+    for an `if` without `else` whose body ends in return / raise / continue / break: the same control flow, written as the
+    if / elif / else chain.  Returns a new statement list (the nodes are copied)."""
+    stmts = [copy.deepcopy(s) for s in stmts]
+    for i, s in enumerate(stmts):
+        if isinstance(s, ast.If) and not s.orelse and s.body and i + 1 < len(stmts) \
+                and isinstance(s.body[-1], (ast.Return, ast.Raise, ast.Continue, ast.Break)):
+            s.orelse = fold_early_exits(stmts[i + 1:])
+            return stmts[:i + 1]
+    return stmts
 
 
 # ------------------------------------------------------------------------------------------------ module constants
